@@ -24,7 +24,7 @@ RULE = ('every string of length <= 3 (4 in thorough) over {a, separator, double 
         'a row containing separator, quote and escape. Each case: real dump -> real load with the matching schema, compared field by '
         'field (copysign for the sign of zero). Non-trivial = distinct row whose string contains a special character or whose number '
         'is negative/fractional.')
-DEEP_PROBES = ('400 rows in one stream; strings that look like numbers / booleans; a field with 5 000 separators; a 140 000 character row; non-ASCII characters slid across the 64 KiB read boundary')
+DEEP_PROBES = ('dump_to_file and load_from_file observables subscribed twice (custom open_obj: same bytes written again, same items loaded again); 400 rows in one stream; strings that look like numbers / booleans; a field with 5 000 separators; a 140 000 character row; non-ASCII characters slid across the 64 KiB read boundary')
 ASSUMPTIONS = ['strings contain no newline (stated); floats are those printable by str()', 'values outside the alphabets are not covered']
 LEVEL_TEXT = ('Exhaustive small-scope exploration of the input/configuration grid of the real dump/load pair; the parser has no '
               'state across rows, so the space is a grid of rows and configurations rather than histories.')
@@ -289,6 +289,26 @@ def run_device(case, acc, report, out):
         return out
     text = data.decode('utf-8')
     parser = lambda: rscsv.create_line_parser(dtype=[('i', int), ('s', str), ('f', float)])
+    # the same dump / load observables subscribed a second time: the same bytes are written again, the same rows loaded again
+    devs = []
+
+    def opener(f, mode, encoding=None, **kw):
+        devs.append(Device() if 'w' in mode else Device(text))
+        return devs[-1]
+    dump_obs = rx.from_(rows).pipe(rscsv.dump_to_file('nowhere/f.csv', encoding='utf-8', open_obj=opener))
+    for _ in (1, 2):
+        RawSink().subscribe_to(dump_obs)
+    if len(devs) != 2 or devs[0].content() != data or devs[1].content() != data:
+        report('second-subscription-of-dump_to_file-writes-other-bytes', {'first': repr(devs[0].content() if devs else None)[:200],
+                                                                         'second': repr(devs[1].content() if len(devs) > 1 else None)[:200]})
+    load_obs = rscsv.load_from_file('nowhere/f.csv', parser(), open_obj=opener)
+    for n_sub in (1, 2):
+        r = RawSink()
+        r.subscribe_to(load_obs)
+        if r.error is not None or [tuple(x) for x in r.items] != [tuple(x) for x in rows]:
+            report('subscription-%d-of-load_from_file-differs' % n_sub, {'loaded': [tuple(x) for x in r.items], 'error': repr(r.error)})
+    acc.evals += 4
+    acc.count('second_subscriptions')
     L = len(text)
     scheds = [[]] + [[p] for p in range(1, L)] + [[p, q - p] for p in range(1, L) for q in range(p + 1, L)]
     for sched in scheds:
